@@ -397,9 +397,11 @@ impl<'s> LowerState<'s> {
                             action.replace("<>", &name_str)
                         }
                         norm_util::Presence::InCurlyBrackets => {
+                            // `Foo {<>}` is field-init shorthand: list the bound
+                            // names themselves, also those inside tuple patterns
                             let name_str = {
                                 let name_strs: Vec<_> =
-                                    names.iter().map(|(_, name, _)| name.name()).collect();
+                                    names.iter().flat_map(|(_, name, _)| name.names()).collect();
                                 name_strs.join(", ")
                             };
                             action.replace("<>", &name_str)
